@@ -2,11 +2,14 @@ package actor
 
 import (
 	"context"
-	"math"
-	"math/rand"
 	"strconv"
+	"sync/atomic"
 	"time"
 )
+
+// responseSeq numbers the response PIDs, so that no two outstanding requests
+// share a PID and receive each other's replies.
+var responseSeq int64
 
 type Response struct {
 	engine  *Engine
@@ -20,7 +23,7 @@ func NewResponse(e *Engine, timeout time.Duration) *Response {
 		engine:  e,
 		result:  make(chan any, 1),
 		timeout: timeout,
-		pid:     NewPID(e.address, "response"+pidSeparator+strconv.Itoa(rand.Intn(math.MaxInt32))),
+		pid:     NewPID(e.address, "response"+pidSeparator+strconv.Itoa(int(atomic.AddInt64(&responseSeq, 1)))),
 	}
 }
 
